@@ -6,6 +6,11 @@ from vlib import kv
 import gen as G
 from props import pool_for, mv_sorted
 
+
+def props_io_std(fen):
+    import props_io
+    return props_io.std_geometry(fen)
+
 MATE = 1000000
 DRAW = -50
 
@@ -128,7 +133,36 @@ def check_C03(run):
             if nv <= 25:
                 run.violation("model-mismatch", "search output differs from the model's", {"request": reqs[i], "implementation": a, "model": model[i]},
                               found_input=False)
-    run.cov["traces_validated_against_impl"] = len(needs_model)
+    # through the binary: the answer as it is PRINTED must be a legal move in the notation in force, also when UCI_Chess960 is
+    # switched between `position` and `go` (castling is the only or the best move in the first positions)
+    import props_proc
+    rel = vlib.build_engine("release")
+    pfens = ["4rkr1/4p1p1/8/8/8/8/6PP/6KR w H - 0 1", "rk6/pp6/8/8/8/8/2P1P3/2RKR3 b a - 0 1", "2rkr3/2p1p3/8/8/8/8/PP6/R3K3 w Q - 0 1",
+             "r3k2r/8/8/8/8/8/8/R3K2R w KQkq - 0 1", "r3k2r/8/8/8/8/8/8/R3K2R b KQkq - 0 1", "4k3/8/8/8/8/8/8/4K2R w K - 0 1"]
+    pfens += [e["fen"] for e in rng.sample([x for x in pool_for(run)["pool"] if x["fen"].split(" ")[2] != "-"], 10 if th else 4)]
+    pj = []
+    for f in pfens:
+        std = props_io_std(f)
+        for first, then in (("0", "1"), ("1", "0"), ("1", "1"), ("0", "0")):
+            if (first == "0" or then == "0") and not std:
+                continue
+            for go in ("go depth 2", "go nodes 0", "go movetime 0"):
+                sc = (["setoption name UCI_Chess960 value true"] if first == "1" else []) + ["isready", "position fen " + f] + \
+                     ([f"setoption name UCI_Chess960 value {'true' if then == '1' else 'false'}"] if then != first else []) + [go, "quit"]
+                pj.append((f, then, sc))
+    pres = vlib.par_map(lambda j: props_proc.run_engine(rel, j[2], timeout=60), pj)
+    plegal = vlib.run_model_par([f"ucispec\t{then}\t{f}" for f, then, _ in pj])
+    for (f, then, sc), (out, err, rc, to), lg in zip(pj, pres, plegal):
+        run.note_case(tuple(sc), "printed-answer", nontrivial=True)
+        strs = set(it.split(":")[1] for it in lg.split(",")) if lg and not lg.startswith("ERROR") else set()
+        bm = [l.split(" ")[1] for l in out.split("\n") if l.startswith("bestmove ")]
+        if to or rc != 0 or len(bm) != 1 or (strs and bm[0] not in strs) or (not strs and bm[0] != "0000"):
+            nv += 1
+            if nv <= 25:
+                run.violation("printed-answer", f"the engine answers {bm} which is not a legal move of the root in the notation in force "
+                              f"(UCI_Chess960 {'on' if then == '1' else 'off'}); legal: {sorted(strs)[:40]}",
+                              {"script": ["uci"] + sc, "repro": "printf 'uci\\n" + "\\n".join(sc) + "\\n' | " + rel})
+    run.cov["traces_validated_against_impl"] = len(needs_model) + len(pj)
     run.sample({"request": reqs[0], "implementation": impl[0][:300]})
     run.sample({"request": reqs[-1], "implementation": impl[-1][:300]})
     run.cov["explanation"] = ("PARTIAL proof: the root loop returns the move of the last reported iteration and reports iterations in order "
@@ -166,7 +200,7 @@ def search_matrix(run, n):
 def check_C13(run):
     run.cov["rule"] = ("depth- and node-limited searches on few-men roots of D (plus terminal roots), fresh 1 MB table, some with a second "
                        "search on the table left by the first; also histories that are empty, lack the root's key or hold unrelated keys: position and history compared before/after; every request executed "
-                       "twice in separate processes and compared with itself and with the model (depth, seldepth, score, nodes, "
+                       "twice in separate processes and compared with itself and with the model; through the binary, a search repeated after ucinewgame vs a fresh engine (depth, seldepth, score, nodes, "
                        "hashfull, pv); non-trivial = at least two iterations reported")
     reqs, meta = search_matrix(run, 300 if run.tier == "thorough" else 60)
     # terminal roots
@@ -232,7 +266,34 @@ def check_C13(run):
             if nv <= 25:
                 run.violation("not-reproducible", "the same search from an identically initialised table gave two different reports",
                               {"request": rq, "first": x[-300:], "second": y[-300:]})
-    run.cov["traces_validated_against_impl"] = len(reqs)
+    # through the binary: the same depth-limited search repeated in one process after `ucinewgame` (the table is re-initialised
+    # by clear(), not re-allocated) must print the same reports; small searches on large tables, larger ones on small tables
+    import props_proc
+    rel = vlib.build_engine("release")
+    rj = []
+    for posl in ("position startpos moves e2e4 e7e5", "position startpos moves e2e4 e7e5 g1f3", "position startpos",
+                 "position fen r3k2r/p1ppqpb1/bn2pnp1/3PN3/1p2P3/2N2Q1p/PPPBBPPP/R3K2R w KQkq - 0 1"):
+        for hashv, d1, d2 in ((None, 2, 2), (None, 1, 1), (64, 4, 1), (64, 3, 3), (1, 5, 5), (None, 3, 2)):
+            if run.tier != "thorough" and (hashv, d1, d2) in ((64, 3, 3), (None, 1, 1)):
+                continue
+            sc = ([f"setoption name Hash value {hashv}"] if hashv else []) + ["isready", posl, f"go depth {d1}", "ucinewgame", posl, f"go depth {d2}", "quit"]
+            fresh = ([f"setoption name Hash value {hashv}"] if hashv else []) + ["isready", posl, f"go depth {d2}", "quit"]
+            rj.append((sc, fresh))
+    r1 = vlib.par_map(lambda j: props_proc.run_engine(rel, j[0], timeout=120), rj)
+    r2 = vlib.par_map(lambda j: props_proc.run_engine(rel, j[1], timeout=120), rj)
+    for (sc, fresh), a, b in zip(rj, r1, r2):
+        run.note_case(tuple(sc), "repeat-after-ucinewgame", nontrivial=True)
+        la = [l for l in props_proc.norm(a[0]) if l.startswith(("info depth", "bestmove"))]
+        lb = [l for l in props_proc.norm(b[0]) if l.startswith(("info depth", "bestmove"))]
+        k = max([i for i, l in enumerate(la[:-1]) if l.startswith("bestmove")] + [-1])
+        second = la[k + 1:]
+        if a[3] or b[3] or a[2] != 0 or b[2] != 0 or second != lb:
+            nv += 1
+            if nv <= 25:
+                run.violation("not-reproducible", "the search repeated after ucinewgame reports differently from the same search on a fresh engine",
+                              {"script": ["uci"] + sc, "second_search": second, "fresh_engine": lb,
+                               "repro": "printf 'uci\\n" + "\\n".join(sc) + "\\n' | " + rel})
+    run.cov["traces_validated_against_impl"] = len(reqs) + len(rj)
     run.sample({"request": reqs[0], "implementation": a1[0][:400]})
     run.cov["explanation"] = ("search_preserves_history (model: negamax and root return the history they were given) proved by induction on "
                               "fuel; determinism of the model is functionality; absence of hidden inputs in the Rust is measured by the "
@@ -244,7 +305,7 @@ def check_C14(run):
     th = run.tier == "thorough"
     run.cov["rule"] = ("few-men roots with legal moves x depth limits 1..4 / node limits; reported depths must be 1..D in order, no iteration "
                        "after the first once N nodes are spent, bestmove = first move of the last pv, scores strictly inside the mate "
-                       "bounds; movetime / clock searches (also zero and near-zero budgets on roots in check): iteration 1 reported, bestmove legal and head of the last pv, measured wall time <= budget + 250 ms (a measurement, not a proof); "
+                       "bounds; movetime / clock searches (also zero and near-zero budgets on roots in check, clocks with increments far above the time left): iteration 1 reported, bestmove legal and head of the last pv, measured wall time <= budget + 250 ms (a measurement, not a proof); "
                        "depth 130 on K v K exercises the MAX_DEPTH cap")
     reqs, meta = search_matrix(run, 300 if th else 60)
     timed = []
@@ -259,6 +320,13 @@ def check_C14(run):
     for e in inchk:
         for ls in (["movetime:0"], ["nodes:0"], ["time:20:20"], ["time:5:5:10"], ["nodes:1"], ["movetime:15"]):
             timed.append(("root\t0\t" + e["fen"] + "\t\t1\t" + ls[0], e["fen"], ls[0]))
+    # clocks with increments (the mover's, the opponent's, both; far larger than the time left) and with many moves to go
+    for e in roots[: (12 if th else 4)] + [{"fen": "rnbqkbnr/pppppppp/8/8/8/8/PPPPPPPP/RNBQKBNR w KQkq - 0 1"}, {"fen": "rnbqkbnr/pppppppp/8/8/4P3/8/PPPP1PPP/RNBQKBNR b KQkq - 0 1"}]:
+        wtm = e["fen"].split(" ")[1] == "w"
+        mine = "timei:250:600000:2500:0" if wtm else "timei:600000:250:0:2500"          # the mover is short of time and has the increment
+        theirs = "timei:250:600000:0:60000" if wtm else "timei:600000:250:60000:0"      # only the opponent has an increment
+        for ls in ("timei:300:300:3000:3000", mine, theirs, "timei:400:400:2000:2000:5", "timei:100:100:60000:60000:1", "timei:150:150:0:0:4294967295"):
+            timed.append(("root\t0\t" + e["fen"] + "\t\t1\t" + ls, e["fen"], ls))
     tlegal = legal_sets([t[1] for t in timed])
     cap = "root\t0\t8/8/8/4k3/8/8/4K3/8 w - - 0 1\t\t1\tdepth:130"
     impl, _ = vlib.run_impl_par(reqs + [cap])
@@ -332,7 +400,7 @@ def check_C14(run):
         if f[0] == "movetime":
             budget = int(f[1])
         else:
-            budget = int(f[1]) if fen.split(" ")[1] == "w" else int(f[2])
+            budget = int(f[1]) if fen.split(" ")[1] == "w" else int(f[2])      # the mover's remaining time (increments do not extend it)
         if d.get("ms") is None or d["ms"] > budget + 250:
             # a scheduling hiccup is not a violation: only a budget overrun that repeats three times in a row counts
             again = []
@@ -449,7 +517,9 @@ def check_C11(run):
     rel = vlib.build_engine("release")
     first_reps = [("6k1/R7/5K2/8/8/8/8/8 w - - 0 1", "a7b7 g8h8 b7a7"), ("6k1/R7/5K2/8/8/8/8/8 w - - 37 60", "a7b7 g8h8 b7a7"),
                   ("6k1/Q7/5K2/8/8/8/8/8 w - - 0 1", "a7b7 g8h8 b7a7"), ("1k6/7R/2K5/8/8/8/8/8 w - - 2 9", "h7g7 b8a8 g7h7"),
-                  ("k7/8/8/8/7q/8/6PK/6n1 w - - 0 1", "h2g1 h4e1 g1h2 e1h4"), ("k7/8/8/8/7q/8/6PK/6n1 w - - 0 1", "h2g1 h4e1 g1h2 e1h4 h2g1 h4e1 g1h2")]
+                  ("k7/8/8/8/7q/8/6PK/6n1 w - - 0 1", "h2g1 h4e1 g1h2 e1h4"), ("k7/8/8/8/7q/8/6PK/6n1 w - - 0 1", "h2g1 h4e1 g1h2 e1h4 h2g1 h4e1 g1h2"),
+                  # the repeated position is the one right after castling (written e1g1: in Chess960 mode that is the alias path of the parser)
+                  ("7r/3k4/8/8/8/8/PPPP2P1/4K2R w K - 0 1", "e1g1 h8a8 g1h1 a8h8"), ("r7/4k3/8/8/8/8/1P2PPPP/R3K3 w Q - 0 1", "e1c1 a8h8 c1b1 h8a8")]
 
     def mirror_uci(mv):
         return " ".join(t[0] + str(9 - int(t[1])) + t[2] + str(9 - int(t[3])) + t[4:] for t in mv.split(" "))
@@ -464,6 +534,10 @@ def check_C11(run):
         for pre in ([], ["position startpos moves e2e4 e7e5", "go depth 2"], ["ucinewgame"]):
             for depth in (2, 3, 4):
                 pjobs.append((f, mv, ["isready"] + pre + [f"position fen {f} moves {mv}", f"go depth {depth}", "quit"]))
+        if props_io_std(f):
+            # the same game with UCI_Chess960 on: conventional castling strings are then aliases, everything else reads the same
+            for depth in (2, 4):
+                pjobs.append((f, mv, ["setoption name UCI_Chess960 value true", "isready", "ucinewgame", f"position fen {f} moves {mv}", f"go depth {depth}", "quit"]))
     pres = vlib.par_map(lambda j: props_proc.run_engine(rel, j[2], timeout=60), pjobs)
     for (f, mv, sc), (out, err, rc, to) in zip(pjobs, pres):
         run.note_case(tuple(sc), "command-loop-repetition")
@@ -527,7 +601,8 @@ def check_C12(run):
     th = run.tier == "thorough"
     run.cov["rule"] = ("mate-in-one roots (the eight of the test-suite, random K+Q/R/RR/.. vs k(+..) placements filtered by the rules: in D, "
                        "clock < 99, at least one mating move), both colours x depth 1..4 x fresh table / table pre-filled by searches of "
-                       "the same root and of its successors; the answer must be one of the mating moves and the last score MATE-1")
+                       "the same root and of its successors; through the binary with the history earlier commands left behind (the mated position was set up "
+                       "before); the answer must be one of the mating moves and the last score MATE-1")
     roots = mate_roots(run, 250 if th else 40)
     reqs, meta = [], []
     for fen, mates in roots:
@@ -560,7 +635,38 @@ def check_C12(run):
             nv += 1
             if nv <= 25:
                 run.violation("model-mismatch", "search report differs from the model's", {"request": rq, "implementation": a, "model": b}, found_input=False)
-    run.cov["traces_validated_against_impl"] = len(reqs)
+    # through the binary, with a game history that earlier commands of the session have left behind: the mated position itself was
+    # on the board before (`position ... moves <mate>`), then the root is set up again with a half-move clock >= 1
+    import props_proc
+    rel = vlib.build_engine("release")
+    proots = [(f, ms) for f, ms in roots if f.split(" ")[3] == "-" and props_io_std(f)][: (40 if th else 10)]
+    pstr = vlib.run_model_par([f"ucispec\t0\t{f}" for f, _ in proots])
+    pj = []
+    for (f, ms), o in zip(proots, pstr):
+        strs = dict((tuple(int(x) for x in it.split(":")[0].split("-")), it.split(":")[1]) for it in o.split(",")) if o and not o.startswith("ERROR") else {}
+        mates = [strs[m] for m in ms if m in strs]
+        if not mates:
+            continue
+        pp = f.split(" ")
+        pp[4] = str(rng.choice([1, 4, 30]))
+        f4 = " ".join(pp)
+        for d in (1, 2, 3):
+            for pre in ([f"position fen {f4} moves {mates[0]}"], [f"position fen {f4} moves {mates[0]}", "go depth 1"], ["position startpos moves e2e4", "go depth 2"]):
+                pj.append((f4, mates, ["isready"] + pre + [f"position fen {f4}", f"go depth {d}", "quit"]))
+    pres = vlib.par_map(lambda j: props_proc.run_engine(rel, j[2], timeout=60), pj)
+    for (f4, mates, sc), (out, err, rc, to) in zip(pj, pres):
+        run.note_case(tuple(sc), "command-loop-history", nontrivial=True)
+        lines = [l for l in out.split("\n") if l.startswith(("info depth", "bestmove"))]
+        k = max([i for i, l in enumerate(lines[:-1]) if l.startswith("bestmove")] + [-1])
+        last = lines[k + 1:]
+        bm = [l.split(" ")[1] for l in last if l.startswith("bestmove")]
+        sc_ = [re.search(r"score (\S+ -?\d+)", l).group(1) for l in last if l.startswith("info depth") and " score " in l]
+        if to or rc != 0 or len(bm) != 1 or bm[0] not in mates or not sc_ or sc_[-1] != f"cp {c['MATE'] - 1}":
+            nv += 1
+            if nv <= 25:
+                run.violation("mate-in-one-missed", f"through the command loop: answered {bm} with last score {sc_[-1:] or None}; mating moves are {mates}",
+                              {"script": ["uci"] + sc, "reports": last, "repro": "printf 'uci\\n" + "\\n".join(sc) + "\\n' | " + rel})
+    run.cov["traces_validated_against_impl"] = len(reqs) + len(pj)
     run.sample({"request": reqs[0], "implementation": impl[0][:300]})
     run.cov["explanation"] = ("PARTIAL proof: the mated child returns -MATE_SCORE+ply on the model (lemma listed); the root-level statement for "
                               "every table content is checked by the runs above")
